@@ -144,13 +144,13 @@ func sxd(v ssa.Value, d int) string {
 	case *ssa.Extract:
 		return sxd(x.Tuple, d-1) + fmt.Sprintf("#%d", x.Index)
 	case *ssa.MakeSlice:
-		return fmt.Sprintf("make[%s]", x.Name())
+		return "make[" + stableName(x) + "]"
 	case *ssa.Alloc:
-		return fmt.Sprintf("alloc[%s]", x.Name())
+		return "alloc[" + stableName(x) + "]"
 	case *ssa.MakeInterface:
 		return "iface(" + sxd(x.X, d-1) + ")"
 	case *ssa.Phi:
-		return "phi[" + x.Name() + ":" + x.Comment + "]"
+		return "phi[" + stableName(x) + "]"
 	}
 	return v.Name()
 }
@@ -194,4 +194,46 @@ func stripConv(v ssa.Value) ssa.Value {
 			return v
 		}
 	}
+}
+
+// stableName names a phi / allocation by its source variable and its ordinal
+// among the same-named values of the function (in block order), so that the
+// name survives unrelated edits that renumber SSA registers.
+var stableNames = map[ssa.Value]string{}
+
+func stableName(v ssa.Value) string {
+	if n, ok := stableNames[v]; ok {
+		return n
+	}
+	ins, ok := v.(ssa.Instruction)
+	if !ok || ins.Parent() == nil {
+		return v.Name()
+	}
+	counts := map[string]int{}
+	for _, b := range ins.Parent().Blocks {
+		for _, i2 := range b.Instrs {
+			var base string
+			var val ssa.Value
+			switch y := i2.(type) {
+			case *ssa.Phi:
+				base, val = "φ"+y.Comment, y
+			case *ssa.Alloc:
+				base, val = y.Comment, y
+			case *ssa.MakeSlice:
+				base, val = "make", y
+			default:
+				continue
+			}
+			counts[base]++
+			n := strings.TrimPrefix(base, "φ")
+			if n == "" {
+				n = "tmp"
+			}
+			if counts[base] > 1 {
+				n = fmt.Sprintf("%s#%d", n, counts[base])
+			}
+			stableNames[val] = n
+		}
+	}
+	return stableNames[v]
 }
